@@ -340,6 +340,12 @@ class TheJoker:
             else:
                 ln_prior = return_logprobs
 
+            if max_prior_samples is not None:
+                # honour the evaluation budget on the in-memory path as well
+                prior_samples = prior_samples[:max_prior_samples]
+                if ln_prior is not None and not isinstance(ln_prior, bool):
+                    ln_prior = ln_prior[:max_prior_samples]
+
             samples = iterative_rejection_inmem(
                 joker_helper,
                 prior_samples,
